@@ -108,3 +108,48 @@ Theorem C06_root_stable : forall H zh st evs k x n r1 st1 c1 r2 st2 c2,
   r1 = root_of H n /\ r2 = root_of H n.
 Proof. exact hm_run_root_stable. Qed.
 Print Assumptions C06_root_stable.
+
+(* ---------------- "... or when": whole histories with and without hash requests ---------------- *)
+(* [memo_eq h1 h2]: same hp_next and, at every address, the same cell up to the memo;
+   [hm_rel]: same handle list (same backing ADDRESSES) and memo_eq stores;
+   [steps_only evs]: the history with every hash request erased. *)
+Theorem C06_defs_memo_eq : forall h1 h2 st1 st2 evs,
+  (memo_eq h1 h2 <->
+     hp_next h1 = hp_next h2 /\
+     forall a, option_map cell_strip (h_cell h1 a) = option_map cell_strip (h_cell h2 a)) /\
+  (forall c, cell_strip c = match c with CLeaf x => CLeaf x | CPair _ l r => CPair zero_chunk l r end) /\
+  (hm_rel st1 st2 <->
+     m_handles _ _ st1 = m_handles _ _ st2 /\ memo_eq (m_store _ _ st1) (m_store _ _ st2)) /\
+  steps_only evs = filter (fun e => match e with EStep _ => true | EHash _ => false end) evs.
+Proof.
+  exact (fun h1 h2 st1 st2 evs =>
+    conj (iff_refl _) (conj (fun c => eq_refl) (conj (iff_refl _) eq_refl))).
+Qed.
+Print Assumptions C06_defs_memo_eq.
+
+(* the machine never reads a memo: a step on two states that differ only in memos returns the
+   same output and yields states that again differ only in memos *)
+Theorem C06_step_memo_insensitive : forall zh st1 st2 o,
+  hm_rel st1 st2 ->
+  hm_rel (fst (hm_step zh st1 o)) (fst (hm_step zh st2 o)) /\
+  snd (hm_step zh st1 o) = snd (hm_step zh st2 o).
+Proof. exact hm_step_memo_eq. Qed.
+Print Assumptions C06_step_memo_insensitive.
+
+(* replaying a history with its hash requests, or with all of them erased: same handles, heaps
+   equal up to memos *)
+Theorem C06_run_steps_only : forall H zh evs st1 st2,
+  hm_inv zh st1 -> hm_inv zh st2 -> hm_rel st1 st2 ->
+  hm_rel (hm_run H zh st1 evs) (hm_run H zh st2 (steps_only evs)).
+Proof. exact hm_run_steps_only. Qed.
+Print Assumptions C06_run_steps_only.
+
+(* so the hash-tree-root of every handle at the end of a history is the same whether or not,
+   and wherever, roots were requested on the way *)
+Theorem C06_run_request_independent : forall H zh st evs k r1 st1 c1 r2 st2 c2,
+  hm_inv zh st -> memo_ok H (m_store _ _ st) ->
+  hm_hash H (hm_run H zh st evs) k = OK (r1, st1, c1) ->
+  hm_hash H (hm_run H zh st (steps_only evs)) k = OK (r2, st2, c2) ->
+  r1 = r2.
+Proof. exact hm_run_request_independent. Qed.
+Print Assumptions C06_run_request_independent.
